@@ -1552,8 +1552,13 @@ class WassersteinDistanceNewton(VariationalWassersteinDistance):
             self.darcy_init.copy(), rhs.copy(), solution_i
         )
 
-        # Initialize distance in case below iteration fails
-        new_distance = 0
+        # Initialize distance with the cost of the initial iterate, such that distance and
+        # solution remain consistent in case below iteration fails or is not entered
+        new_distance = self.l1_dissipation(solution_i[self.flux_slice])
+
+        # Convergence is only reported if the stopping criteria are met
+        converged = False
+        iter = 0
 
         # Initialize container for storing the convergence history
         convergence_history = {
@@ -1580,14 +1585,13 @@ class WassersteinDistanceNewton(VariationalWassersteinDistance):
 
         # Newton iteration
         for iter in range(num_iter):
-            # It is possible that the linear solver fails. In this case, we simply
-            # stop the iteration and return the current solution.
-            try:
-                # Keep track of old flux, and old distance
-                old_solution_i = solution_i.copy()
-                flux = solution_i[self.flux_slice]
-                old_distance = self.l1_dissipation(flux)
+            # Keep track of old solution, and old distance (the last valid iterate)
+            old_solution_i = solution_i.copy()
+            old_distance = new_distance
 
+            # It is possible that the linear solver fails. In this case, we simply
+            # stop the iteration and return the last valid solution.
+            try:
                 # Assemble linear problem in Newton step
                 tic = time.time()
                 residual_i = self.residual(rhs, solution_i)
@@ -1689,9 +1693,13 @@ class WassersteinDistanceNewton(VariationalWassersteinDistance):
                             < tol_distance
                         )
                     ):
+                        converged = True
                         break
             except Exception:
                 warnings.warn("Newton iteration abruptly stopped due to some error.")
+                # Fall back to the last valid iterate and its distance
+                solution_i = old_solution_i
+                new_distance = old_distance
                 break
 
         # Summarize profiling (time in seconds, memory in GB)
@@ -1700,7 +1708,7 @@ class WassersteinDistanceNewton(VariationalWassersteinDistance):
 
         # Define performance metric
         info = {
-            "converged": iter < num_iter - 1,
+            "converged": converged,
             "number_iterations": iter,
             "convergence_history": convergence_history,
             "timings": total_timings,
@@ -1829,8 +1837,8 @@ class WassersteinDistanceBregman(VariationalWassersteinDistance):
             self.darcy_init.copy(), rhs.copy(), solution_i
         )
 
-        # Initialize distance in case below iteration fails
-        new_distance = 0
+        # Convergence is only reported if the stopping criteria are met
+        converged = False
 
         # Initialize container for storing the convergence history
         convergence_history = {
@@ -1871,6 +1879,10 @@ class WassersteinDistanceBregman(VariationalWassersteinDistance):
         old_force = flux - old_aux_flux
         old_distance = self.l1_dissipation(flux)
 
+        # Initialize distance with the cost of the initial iterate, such that distance and
+        # flux remain consistent in case below iteration fails or is not entered
+        new_distance = old_distance
+
         iter = 0
 
         # Control the update of the Bregman weight
@@ -1878,8 +1890,11 @@ class WassersteinDistanceBregman(VariationalWassersteinDistance):
         bregman_homogeneous = self.options.get("bregman_homogeneous", False)
 
         for iter in range(num_iter):
+            # Keep track of the last valid flux (old_distance is its distance)
+            old_flux = flux
+
             # It is possible that the linear solver fails. In this case, we simply
-            # stop the iteration and return the current solution.
+            # stop the iteration and return the last valid solution.
             try:
                 # (Possibly) update the regularization, based on the current approximation
                 # of the flux - use the inverse of the norm of the flux
@@ -2051,6 +2066,7 @@ class WassersteinDistanceBregman(VariationalWassersteinDistance):
                             < tol_residual
                         )
                     ):
+                        converged = True
                         break
 
                 # Update Bregman variables
@@ -2060,6 +2076,9 @@ class WassersteinDistanceBregman(VariationalWassersteinDistance):
 
             except Exception:
                 warnings.warn("Bregman iteration abruptly stopped due to some error.")
+                # Fall back to the last valid iterate and its distance
+                flux = old_flux
+                new_distance = old_distance
                 break
 
         # Solve for the pressure by solving a single Newton iteration
@@ -2078,7 +2097,7 @@ class WassersteinDistanceBregman(VariationalWassersteinDistance):
 
         # Define performance metric
         info = {
-            "converged": iter < num_iter - 1,
+            "converged": converged,
             "number_iterations": iter,
             "convergence_history": convergence_history,
             "timings": total_timings,
